@@ -504,6 +504,10 @@ def _nothing_else(ctx, loader, func):
                'the listing is not modified while it is walked%s' % (
                    ': %s' % changed if changed else ''),
                construct='restore loop domain stable')
+        # ... to its end: a stale or vanished record is skipped, the walk
+        # goes on with the next one
+        K.exhaustive_loop(ctx, 'C11.5', func, loop,
+                          'restore walk over the stored listing')
     gp = loader.methods.get('get_placed_apps')
     ctx.require(gp is not None, 'Loader.get_placed_apps')
     lists = [c for c in K.calls(gp.node) if K.is_meth(c, 'list') and
